@@ -337,6 +337,23 @@ impl<T: HCfg> World<T> {
             })
             .collect();
         line.insert("rxi".into(), Value::Array(rxi));
+        // handshake packets: requests sent [to, nonce id], replies consumed [from, nonce id, magic ok]
+        let stx: Vec<Value> = tx
+            .iter()
+            .filter(|m| m[2][0] == "SRq")
+            .map(|m| json!([m[0], m[2][2]]))
+            .collect();
+        let srx: Vec<Value> = rx
+            .iter()
+            .filter(|m| m[2][0] == "SRp")
+            .map(|m| json!([m[0], m[2][2], m[2][1]]))
+            .collect();
+        if !stx.is_empty() {
+            line.insert("stx".into(), Value::Array(stx));
+        }
+        if !srx.is_empty() {
+            line.insert("srx".into(), Value::Array(srx));
+        }
         // distinct senders of all consumed packets
         let mut rxf: Vec<u64> = rx.iter().filter_map(|m| m[0].as_u64()).collect();
         rxf.sort_unstable();
